@@ -46,7 +46,7 @@ func (b *embeddedBackend) Get(key []byte) (*redisValue, error) {
 	if kv.IsDeletedOrExpired(entry.Meta, entry.ExpiresAt) {
 		return &redisValue{Found: false}, nil
 	}
-	val := append([]byte(nil), entry.Value...)
+	val := append([]byte{}, entry.Value...)
 	return &redisValue{
 		Value:     val,
 		ExpiresAt: entry.ExpiresAt,
@@ -159,7 +159,7 @@ func (b *embeddedBackend) MGet(keys [][]byte) ([]*redisValue, error) {
 					out[i] = &redisValue{Found: false}
 					continue
 				}
-				valCopy := append([]byte(nil), entry.Value...)
+				valCopy := append([]byte{}, entry.Value...)
 				out[i] = &redisValue{
 					Value:     valCopy,
 					ExpiresAt: entry.ExpiresAt,
@@ -243,8 +243,8 @@ func (b *embeddedBackend) IncrBy(key []byte, delta int64) (int64, error) {
 			entry := item.Entry()
 			if kv.IsDeletedOrExpired(entry.Meta, entry.ExpiresAt) {
 				existing = false
-			} else if len(entry.Value) > 0 {
-				parsed, perr := strconvParseIntSafe(entry.Value)
+			} else {
+				parsed, perr := parseRedisInt(entry.Value)
 				if perr != nil {
 					return errNotInteger
 				}
@@ -277,6 +277,7 @@ func (b *embeddedBackend) IncrBy(key []byte, delta int64) (int64, error) {
 	return result, nil
 }
 
+// strconvParseIntSafe is kept for callers that want the lenient parse (blank = 0).
 func strconvParseIntSafe(data []byte) (int64, error) {
 	if len(bytes.TrimSpace(data)) == 0 {
 		return 0, nil
